@@ -50,6 +50,14 @@ def build_ops(R):
     ops += g; meta += gm
     return ops, meta
 
+def c06_shape(setting, H):
+    """None if H has the documented shape of the method the setting selects (recogniser of checks/c06.py, written from crypt(5))"""
+    from checks.c06 import well_formed
+    m = CS.method_of(setting)
+    if m == "des-family": m = "bigcrypt"      # either DES-family shape is accepted by the recogniser
+    try: return well_formed(m, H, setting)
+    except KeyError: return None
+
 def common_suffix(a, b):
     n = 0
     while n < len(a) and n < len(b) and a[-1 - n] == b[-1 - n]: n += 1
@@ -90,6 +98,10 @@ def oracle(ops, meta, il, ml=None):
             # part of what the object held before survives inside a different "result": the call did not write a whole hash
             if prev is not None and cur != prev and not prev.startswith(b"*") and common_suffix(cur, prev) >= 11 and st is not None and not prev.startswith(st[:len(prev) - 11]):
                 why = "the returned string ends with %d characters of the string the object held before the call (stale hash material)" % common_suffix(cur, prev)
+            elif st is not None and CS.method_of(st) is not None and c06_shape(st, cur) is not None:
+                # crypt(5) documents the shape of every method's hash: a "hash" that does not have it was produced from a malformed
+                # setting that should have been refused (seeded/C05b: a cost field that is not two digits)
+                why = "an invalid request produced a hash: the result %r %s" % (cur, c06_shape(st, cur))
             elif ml is not None and f.get("errno") in ("EINVAL", "ERANGE") and fields(ml[k]).get("ret") == "NULL":
                 why = "the call raised %s (errno was 0 on entry) and the model rejects the setting, yet a string not starting with '*' is returned/left in output" % f.get("errno")
         if cur is not None: held[obj] = cur
